@@ -173,19 +173,35 @@ Definition tool_verify (dupfail : bool) (doc : tree) (nm : N) (i : option str) (
 
 Definition count_sigs (l : list tree) : nat := List.length (filter is_sig l).
 
-(* the pre-check of _check_signature on the text handed to the tool: exactly one
-   element of that name carries the ID; the first ds:Signature in document order
-   inside it is a direct child and its only Signature child; that signature has a
-   single Reference whose URI is "#" + ID *)
+(* every element carrying an ID, whatever its name, with its absolute path, in document order
+   (root.iter() in _enveloped_signature_ok; the tool only registers the elements named [nm]) *)
+Fixpoint all_ids (t : tree) (here : path) : list (str * path) :=
+  match t with
+  | Sg _ _ _ => []
+  | El _ i _ kids =>
+      (match i with Some v => [(v, here)] | None => [] end) ++
+      (fix go (l : list tree) (k : nat) : list (str * path) :=
+         match l with
+         | [] => []
+         | c :: r => all_ids c (here ++ [k]) ++ go r (S k)
+         end) kids O
+  end.
+
+(* the pre-check of _check_signature on the text handed to the tool
+   (sigver._enveloped_signature_ok): exactly one element of the document - of ANY
+   name - carries the ID, and that element has the asked name; the first
+   ds:Signature in document order inside it is a direct child and its only
+   Signature child; that signature has a single Reference whose URI is "#" + ID *)
 Definition precheck (doc : tree) (nm : N) (i : option str) : bool :=
   match i with
   | None => false
   | Some v =>
       match v with [] => false | _ =>
-      match with_id v (registered nm doc []) with
+      match with_id v (all_ids doc []) with
       | [(_, px)] =>
           match subtree_at px doc with
           | Some (El n xi pl kids) =>
+              N.eqb n nm &&
               match first_sig (El n xi pl kids) with
               | Some [k] =>
                   Nat.eqb (count_sigs kids) 1 &&
